@@ -5,6 +5,7 @@ import (
 	"go/types"
 	"math"
 	"math/big"
+	"os"
 	"strconv"
 	"strings"
 
@@ -341,8 +342,11 @@ func init() {
 		if a[3].(PtrV).Obj != nil {
 			ex.unsupported("BigInt.Exp with modulus")
 		}
-		if !x.IsConst() || !y.IsConst() {
-			ex.unsupported("symbolic BigInt.Exp")
+		if !x.IsConst() {
+			ex.unsupported("symbolic BigInt.Exp base")
+		}
+		if !y.IsConst() {
+			y = ConstBig(ex.concretize(y, "BigInt.Exp exponent"))
 		}
 		r := new(big.Int).Exp(x.Const(), y.Const(), nil)
 		return setBig(ex, a[0], ConstBig(r))
@@ -860,7 +864,28 @@ func (ex *Exec) externalStub(name string) interceptFn {
 			lo, hi := ex.bounds(v)
 			return ex.appendBytes(a[0].(SliceV), ex.bigDigits(IntV{T: v.T, Lo: lo, Hi: hi}))
 		}
-	case "strconv.AppendFloat", "strconv.ParseFloat", "strconv.FormatFloat":
+	case "strconv.ParseFloat":
+		return func(ex *Exec, a []Value, c *ssa.CallCommon) Value {
+			str, ok := a[0].(StrV).Concrete()
+			if !ok {
+				ex.stop("cut_float", name+" on a symbolic string")
+			}
+			f, err := strconv.ParseFloat(str, int(a[1].(IntV).Const().Int64()))
+			if err != nil {
+				return TupleV{FloatV{f}, ex.newError("strconv.ParseFloat")}
+			}
+			return TupleV{FloatV{f}, IfaceV{}}
+		}
+	case "strconv.AppendFloat":
+		return func(ex *Exec, a []Value, c *ssa.CallCommon) Value {
+			f, ok := a[1].(FloatV)
+			if !ok {
+				ex.stop("cut_float", name+" on a symbolic float")
+			}
+			out := strconv.AppendFloat(nil, f.F, byte(a[2].(IntV).Const().Int64()), int(a[3].(IntV).Const().Int64()), int(a[4].(IntV).Const().Int64()))
+			return ex.appendBytes(a[0].(SliceV), ConstStr(string(out)).B)
+		}
+	case "strconv.FormatFloat":
 		return func(ex *Exec, a []Value, c *ssa.CallCommon) Value {
 			ex.stop("cut_float", name)
 			return nil
@@ -959,6 +984,12 @@ func condStringIndex(ex *Exec) int {
 // ex.defs and conjoined whenever a model is needed or an assertion fails under the
 // abstraction, so that no spurious counterexample is ever reported.
 func (ex *Exec) bigMul(x, y IntV) IntV {
+	if x.IsConst() && y.IsConst() {
+		if os.Getenv("VERIF_BIGLOG") != "" && x.Const().BitLen()+y.Const().BitLen() > 20000 {
+			fmt.Printf("BIGMUL %d x %d bits at %s\n", x.Const().BitLen(), y.Const().BitLen(), ex.where())
+		}
+		return ConstBig(new(big.Int).Mul(x.Const(), y.Const()))
+	}
 	xlo, xhi := ex.bounds(x)
 	ylo, yhi := ex.bounds(y)
 	lo, hi := mulInterval(xlo, xhi, ylo, yhi)
